@@ -22,4 +22,21 @@ inductive DefaultKind where
   | none | immutable | mutableLiteral | callAtDefinition | other | missing
   deriving DecidableEq, Repr
 
+/-- a column slice `base[rows, lo:hi]` found in the source; bounds as functions of
+    (n_regions, n_sectors, n_fd_cat, _n_rebuilding_events, event id); `none` = open end -/
+structure ColSlice where
+  fn : String
+  idx : Nat
+  base : String
+  allRows : Bool                 -- the row selector is `:`
+  unitStep : Bool                -- no step in the column slice
+  lo : Nat → Nat → Nat → Nat → Nat → Option Nat
+  hi : Nat → Nat → Nat → Nat → Nat → Option Nat
+
+/-- `np.zeros(shape=(rows, cols))` found in the source -/
+structure ZerosShape where
+  fn : String
+  rows : Nat → Nat → Nat → Nat → Nat → Option Nat
+  cols : Nat → Nat → Nat → Nat → Nat → Option Nat
+
 end Boario.Gen
